@@ -14,6 +14,8 @@
 (*            had been handed out by the stream (instrumented stream), or   *)
 (*            when the descriptor of a real file stood at req (bytes)       *)
 (*   slack    the file object's own read-ahead, measured (0 otherwise)      *)
+(*   atcall   units requested by the call itself, before the first next()   *)
+(*   built    loader objects constructed during the iteration               *)
 (*   outcome  "done" | "raised" | "abandoned" | "exception"                *)
 (*   bad      [kind, doc, at]: the malformed document of the stream        *)
 (*            ("-" none; "reader": offending unit at offset `at`;          *)
@@ -41,6 +43,8 @@ Judge(t) ==
       late == {j \in DOMAIN t.yields : t.yields[j].k # j \/ j > n \/ ~HL!Within(Over(HL!Charged(t.yields[j].req, t.slack), t.ends[j]), t.block)}
   IN
   IF \E j \in DOMAIN t.yields : t.yields[j].k # j \/ j > n THEN Bad("documents out of order", 0)
+  \* k = 0: what the call itself requested, before the first item was asked for, is bounded like everything else
+  ELSE IF ~HL!Within(HL!Charged(t.atcall, t.slack), t.block) THEN Bad("requested more than two blocks at call", 0)
   ELSE IF late # {} THEN Bad("requested more than two blocks ahead", CHOOSE j \in late : \A i \in late : j <= i)
   ELSE IF t.outcome = "exception" THEN Bad("non-YAML exception", Delivered(t))
   ELSE IF t.outcome = "raised" /\ t.bad.kind = "-" /\ Delivered(t) < n THEN Bad("error before all documents", Delivered(t))
@@ -50,7 +54,8 @@ Judge(t) ==
           /\ \E k \in Delivered(t) + 1 .. n : t.bad.at > t.ends[k] /\ ~HL!MayPreempt(t.bad.at - t.ends[k], t.block)
        THEN Bad("reader error before earlier documents", Delivered(t))
   ELSE IF t.outcome = "done" /\ t.bad.kind = "-" /\ Delivered(t) # n THEN Bad("documents not delivered", Delivered(t))
-  ELSE IF t.outcome = "abandoned" /\ ~HL!Released(t.disposals, t.readsAfter) THEN Bad("loader not disposed on abandon", Delivered(t))
+  ELSE IF t.outcome = "abandoned" /\ ~HL!ReleasedAll(t.built, t.disposals, t.readsAfter)
+       THEN Bad("loader not disposed on abandon", Delivered(t))
   ELSE IF t.outcome = "abandoned" /\ ~HL!NothingLeft({t.alive[j] : j \in DOMAIN t.alive})
        THEN Bad("loader not released on abandon", Delivered(t))
   ELSE Ok
